@@ -127,3 +127,37 @@ Example C18_nonvacuous_handler_between_cancel_take_and_null :
               Sel s 1 = SIdle /\ Cn s 0 = CnIdle /\ busy s 1 = None
   | None => False end.
 Proof. vm_compute. repeat split. Qed.
+
+(* ---- accept / connect (the theorems above are about every operation kind: `ato` / `acn` of the caller) ------------- *)
+(* connect arms a timer (UnixStream::connect: always 2 s; TcpStream::connect_timeout: the given one), accept never does.
+   A connect with timeout 7 that gets EINPROGRESS and whose attempt stays in progress is timed out exactly at the
+   deadline, with TimedOut, and leaves no timer behind; the attempt is still in progress in the kernel *)
+Example C18_nonvacuous_connect_timeout :
+  match runp true true true
+          [Start 0 6 Co true (Some 7) [] 4; Step 0 0; Step 0 0; Sub 0 false; Sub 0 false; Sub 0 false; Sub 0 false; Sub 0 false;
+           Tick 7; SelFire 0 0; SelMark 0; SelHnd 0; Resume 0; Step 0 0; Step 0 0; Step 0 0] with
+  | Some s => alast (A s 0) = Some RTimedOut /\ now s = 7 /\ atcall (A s 0) = 0 /\ tmr s 6 = None /\ busy s 6 = None /\
+              kst (Kn s 6) = CProg /\ due s 0
+  | None => False end.
+Proof. vm_compute. repeat split. exists 7. cbn. split; [reflexivity | lia]. Qed.
+(* ... and when the kernel establishes the connection before the deadline connect returns Ok and the timer is disarmed:
+   the entry that is still in the list when its deadline comes is ignored (`event_data` nulled) *)
+Example C18_nonvacuous_connect_in_time :
+  match runp true true true
+          [Start 0 6 Co true (Some 7) [] 4; Step 0 0; Step 0 0; Sub 0 false; Sub 0 false; Sub 0 false; Sub 0 false; Sub 0 false;
+           Tick 3; Establish 6; SelEvent 0 6; SelTake 0; SelDisarm 0 false; Resume 0; Step 0 0; Step 0 0; Step 0 0; Step 0 0; Step 0 0;
+           Tick 4; SelFire 0 0] with
+  | Some s => alast (A s 0) = Some RConn /\ now s = 7 /\ tmr s 6 = None /\ tev (T s 0) = None /\ Sel s 0 = SIdle /\ apara (A s 0) = false
+  | None => False end.
+Proof. vm_compute. repeat split. Qed.
+(* cancel of a coroutine blocked in accept: it ends with Canceled, the listener's slot is empty, a connection that
+   arrives afterwards stays in the backlog for the next accept *)
+Example C18_nonvacuous_cancel_blocked_accept :
+  match runp true true true
+          [Start 0 4 Ac true None [] 0; Step 0 0; Step 0 0; Step 0 0; Sub 0 false; Sub 0 false; Sub 0 false; Sub 0 false;
+           CancelSet 0; CancelIo 0; CancelTake 0; CancelNull 0; Resume 0; Step 0 0;
+           Start 1 6 Co true None [] 4; Step 1 1] with
+  | Some s => alast (A s 0) = Some RCanceled /\ apc (A s 0) = Dead /\ co s 4 = None /\ busy s 4 = None /\ kq (Kn s 4) = [6] /\
+              alast (A s 1) = Some RConn
+  | None => False end.
+Proof. vm_compute. repeat split. Qed.
